@@ -74,7 +74,11 @@ THSplit ==
                         ch == Children(r, Ev.meet, Ev.tr)
                     IN /\ bnd' = IF okc THEN Put(Put(bnd, ch[1], <<bnd[r][1], LeftB0(Ev.tr)>>), ch[2], <<RightF0(Ev.tr), bnd[r][2]>>) ELSE bnd
                        /\ cells' = IF okc THEN cells \cup Cells(r, Ev.meet, Ev.tr) ELSE cells
-                       /\ IF same THEN viol' = {}
+                       /\ IF same
+                          THEN \* the same choice: the score of the split must be the model's too (exact parameters only)
+                               IF "sc" \in DOMAIN Ev /\ ExactPar(par) /\ (Len(a) + Len(b)) * MaxAbs(par) < 40000 /\ Ev.sc # mt.max
+                               THEN PrintT(<<"KVINFO", l, cs.id, r, "score code", Ev.sc, "model", mt.max>>) /\ Report({"Kernel.score-of-the-split-differs-from-the-model"})
+                               ELSE viol' = {}
                           ELSE IF close THEN PrintT(<<"KVNOTE", l, cs.id, "too-close-to-call-in-float">>) /\ viol' = {}
                           ELSE /\ PrintT(<<"KVINFO", l, cs.id, r, "code", Ev.meet, Ev.tr, "model", mt.c, mt.tr, "margin", mt.max - mt.second>>)
                                /\ Report({"Kernel.meet-or-transition-differs-from-the-model"})
